@@ -190,7 +190,7 @@ def nofinite_models(rng):
     """Purpose-built models with no finite optimum. Returns list of (name, ops, expected_kind)."""
     from pv import gen
     out = []
-    for kind in ("no_initial_condition", "contradictory", "unbounded_metric", "infeasible_box", "lmi_infeasible", "lmi_not_symmetric"):
+    for kind in ("no_initial_condition", "contradictory", "unbounded_metric", "infeasible_box", "lmi_infeasible", "lmi_not_symmetric", "constant_infeasible"):
         b = gen.Builder(rng)
         cls = b.pick(["SmoothStronglyConvexFunction", "SmoothConvexFunction", "ConvexFunction", "MonotoneOperator",
                       "LipschitzOperator", "StronglyConvexFunction", "SmoothFunction"])
@@ -214,6 +214,11 @@ def nofinite_models(rng):
             b.metric(b.expr([[1.0, "sq", y]]))
         elif kind == "infeasible_box":
             b.cons(d0, "<=", -1.0)
+            b.metric(d1)
+        elif kind == "constant_infeasible":
+            # a constraint without any variable left in it (zero iterations: x_n IS x_0) that is plainly false: 1 <= 0
+            b.cons(d0, "<=", 1.0)
+            b.cons(b.sqdist(x0, x0), ">=", b.pick([1.0, 0.5]))
             b.metric(d1)
         elif kind == "lmi_not_symmetric":
             # a matrix inequality is about a SYMMETRIC matrix: entries (i,j) and (j,i) that cannot be equal make it infeasible
@@ -300,7 +305,7 @@ def run_shard(spec):
                 says_none = any(x in st for x in ("unbounded", "infeasible", "dual_infeas", "prim_infeas"))
                 if not says_none:
                     counters["nofinite_status_other:" + st] = counters.get("nofinite_status_other:" + st, 0) + 1
-                    if kind in ("contradictory", "infeasible_box", "lmi_infeasible", "lmi_not_symmetric") and case.outcome[1] is not None \
+                    if kind in ("contradictory", "infeasible_box", "lmi_infeasible", "lmi_not_symmetric", "constant_infeasible") and case.outcome[1] is not None \
                             and "optimal" in st and "inaccurate" not in st:
                         # infeasible by construction (by a margin of order 1), yet a number comes back with status optimal:
                         # whatever reached the solver was not the declared model, and the number stands for no solution
